@@ -1,25 +1,22 @@
 package dns
 
 // C04 — rule normalisation never changes meaning: the DNS request and DNS response
-// routing pipelines. Generated dns sections (text) go through config_parser.Parse ->
-// config.New -> dns.New (which wires DatReaderOptimizer, MergeAndSortRulesOptimizer,
-// DeduplicateParamsOptimizer and the two matcher builders exactly as production
-// does); questions and answers are decided by RequestMatcher.Match /
-// ResponseMatcher.Match and compared with an independent interpreter of the written
-// rule lists (own geodata expansion, own qtype table). Identifiers: c04d*.
+// routing pipelines. A generated dns section (text) is parsed ONCE (config_parser.Parse
+// -> config.New) and that one configuration object is then compiled by the production
+// pipelines in sequence: the request-program compile exactly as component/daedns
+// router.go wires it (the real Router is driven by harness/component/daedns), then
+// dns.New, then dns.New again (a reload / second pipeline re-compiling the same
+// parsed config). After EACH compilation (a) the parsed object must equal the snapshot
+// taken right after parsing (own walker) and (b) every question and answer must be
+// decided by every compiled matcher as the independent interpreter of the written
+// lists says. Generator, interpreter and snapshot live in c04_dnsgen_test.go.
 
 import (
 	"fmt"
 	"io"
 	"net/netip"
 	"os"
-	"path/filepath"
-	"reflect"
-	"regexp"
 	"sort"
-	"strconv"
-	"strings"
-	"sync"
 	"testing"
 	"time"
 
@@ -27,791 +24,75 @@ import (
 	"github.com/daeuniverse/dae/common/consts"
 	"github.com/daeuniverse/dae/component/routing"
 	"github.com/daeuniverse/dae/config"
-	"github.com/daeuniverse/dae/pkg/config_parser"
-	"github.com/daeuniverse/dae/pkg/geodata"
 	"github.com/sirupsen/logrus"
-	"google.golang.org/protobuf/proto"
 	"pgregory.net/rapid"
 )
 
-type c04dVal struct {
-	Key, Val string
-	Quote    byte
-	Tight    bool
+func c04dLog() *logrus.Logger {
+	log := logrus.New()
+	log.SetOutput(io.Discard)
+	log.SetLevel(logrus.ErrorLevel)
+	return log
 }
 
-type c04dCond struct {
-	Func string // qname qtype ip upstream (sub/node: internal selectors, not DNS rules)
-	Not  bool
-	Vals []c04dVal
+func c04dFinder(geoDir string) *assets.LocationFinder {
+	var dirs []string
+	if geoDir != "" {
+		dirs = []string{geoDir}
+	}
+	return assets.NewLocationFinder(dirs)
 }
 
-type c04dRule struct {
-	Conds []c04dCond
-	Out   string
-	Style int
-}
-
-type c04dProg struct {
-	Upstreams    []string
-	Req          []c04dRule
-	ReqFallback  string
-	Resp         []c04dRule
-	RespFallback string
-	Names        []string
-	Prefixes     []string
-	ExcludedF1   int
-	ExcludedF2   int
-}
-
-// ---- geodata (interpreter's own table + the .dat files written from it) ----
-
-type c04dGeoDomain struct {
-	Kind, Val string
-	Attrs     []string
-}
-
-var c04dGeoSites = map[string]map[string][]c04dGeoDomain{
-	"geosite.dat": {
-		"cn":     {{"full", "a.com", nil}, {"suffix", "example.com", []string{"ads"}}, {"keyword", "x-1", nil}, {"regex", `^ab\.`, []string{"cn"}}, {"suffix", "co", []string{"ads"}}},
-		"google": {{"suffix", "net", nil}, {"full", "b.co", nil}, {"suffix", "a.com", nil}},
-	},
-	"vxsite.dat": {"tag1": {{"suffix", "aa.net", nil}, {"keyword", "ab", []string{"ads"}}}},
-}
-
-var c04dGeoIps = map[string]map[string][]string{
-	"geoip.dat": {"private": {"10.0.0.0/8", "192.168.0.0/16", "fc00::/7", "127.0.0.1/32"}, "cn": {"1.2.3.0/24", "2001:db8::/32"}},
-	"vxip.dat":  {"tag1": {"10.1.0.0/16", "::ffff:10.1.2.0/120"}},
-}
-
-var (
-	c04dGeoOnce sync.Once
-	c04dGeoPath string
-	c04dGeoErr  error
-)
-
-func c04dKeys[V any](m map[string]V) []string {
-	ks := make([]string, 0, len(m))
-	for k := range m {
-		ks = append(ks, k)
-	}
-	sort.Strings(ks)
-	return ks
-}
-
-func c04dGeoDir() (string, error) {
-	c04dGeoOnce.Do(func() {
-		base := os.Getenv("VERIF_RUNDIR")
-		if base == "" {
-			base = os.TempDir()
-		}
-		dir, err := os.MkdirTemp(base, "c04dgeo")
-		if err != nil {
-			c04dGeoErr = err
-			return
-		}
-		for file, codes := range c04dGeoSites {
-			var list geodata.GeoSiteList
-			for _, code := range c04dKeys(codes) {
-				gs := &geodata.GeoSite{CountryCode: strings.ToUpper(code)}
-				for _, d := range codes[code] {
-					dom := &geodata.Domain{Value: d.Val}
-					switch d.Kind {
-					case "full":
-						dom.Type = geodata.Domain_Full
-					case "suffix":
-						dom.Type = geodata.Domain_RootDomain
-					case "keyword":
-						dom.Type = geodata.Domain_Plain
-					case "regex":
-						dom.Type = geodata.Domain_Regex
-					}
-					for _, a := range d.Attrs {
-						dom.Attribute = append(dom.Attribute, &geodata.Domain_Attribute{Key: a, TypedValue: &geodata.Domain_Attribute_BoolValue{BoolValue: true}})
-					}
-					gs.Domain = append(gs.Domain, dom)
-				}
-				list.Entry = append(list.Entry, gs)
-			}
-			b, err := proto.Marshal(&list)
-			if err == nil {
-				err = os.WriteFile(filepath.Join(dir, file), b, 0o644)
-			}
-			if err != nil {
-				c04dGeoErr = err
-				return
-			}
-		}
-		for file, codes := range c04dGeoIps {
-			var list geodata.GeoIPList
-			for _, code := range c04dKeys(codes) {
-				gi := &geodata.GeoIP{CountryCode: strings.ToUpper(code)}
-				for _, c := range codes[code] {
-					p := netip.MustParsePrefix(c)
-					gi.Cidr = append(gi.Cidr, &geodata.CIDR{Ip: p.Addr().AsSlice(), Prefix: uint32(p.Bits())})
-				}
-				list.Entry = append(list.Entry, gi)
-			}
-			b, err := proto.Marshal(&list)
-			if err == nil {
-				err = os.WriteFile(filepath.Join(dir, file), b, 0o644)
-			}
-			if err != nil {
-				c04dGeoErr = err
-				return
-			}
-		}
-		c04dGeoPath = dir
-	})
-	return c04dGeoPath, c04dGeoErr
-}
-
-// ---- generator ----
-
-var c04dLabels = []string{"a", "aa", "b", "ab", "com", "net", "co", "x-1", "a_b", "0", "9z", "m", "example"}
-
-func c04dGenName(t *rapid.T, label string) string {
-	n := rapid.IntRange(1, 4).Draw(t, label+"_nl")
-	parts := make([]string, n)
-	for i := range parts {
-		parts[i] = rapid.SampledFrom(c04dLabels).Draw(t, label+"_l")
-	}
-	return strings.Join(parts, ".")
-}
-
-func c04dBareSafe(s string) bool {
-	if s == "" {
-		return false
-	}
-	for i := 0; i < len(s); i++ {
-		c := s[i]
-		if !(c >= 'a' && c <= 'z' || c >= 'A' && c <= 'Z' || c >= '0' && c <= '9' || c == '.' || c == '_' || c == '-' || c == '/') {
-			return false
-		}
-	}
-	return true
-}
-
-func c04dStyle(t *rapid.T, key, val string) c04dVal {
-	v := c04dVal{Key: key, Val: val, Tight: rapid.Bool().Draw(t, "tight")}
-	if !c04dBareSafe(val) || rapid.IntRange(0, 3).Draw(t, "quote") == 0 {
-		v.Quote = '\''
-		if rapid.Bool().Draw(t, "dq") {
-			v.Quote = '"'
-		}
-	}
-	return v
-}
-
-func c04dGenPrefix(t *rapid.T, p *c04dProg) string {
-	if rapid.IntRange(0, 9).Draw(t, "pfx_v6") < 4 {
-		base := rapid.SampledFrom([]string{"2001:db8::", "2001:db8:1::1", "fe80::1", "::", "::1", "::ffff:10.1.2.3", "fc00::"}).Draw(t, "pfx_b6")
-		if rapid.IntRange(0, 5).Draw(t, "pfx_bare") == 0 {
-			return base
-		}
-		bits := rapid.SampledFrom([]int{0, 1, 7, 16, 32, 48, 64, 96, 104, 120, 127, 128}).Draw(t, "pfx_n6")
-		if bits == 0 && vkKnown("F2") {
-			p.ExcludedF2++
-			bits = 1
-		}
-		return fmt.Sprintf("%s/%d", base, bits)
-	}
-	base := rapid.SampledFrom([]string{"10.0.0.0", "10.1.0.0", "10.1.2.3", "192.168.1.1", "0.0.0.0", "1.2.3.4", "127.0.0.1"}).Draw(t, "pfx_b4")
-	if rapid.IntRange(0, 5).Draw(t, "pfx_bare") == 0 {
-		return base
-	}
-	return fmt.Sprintf("%s/%d", base, rapid.SampledFrom([]int{0, 1, 8, 9, 16, 24, 31, 32}).Draw(t, "pfx_n4"))
-}
-
-func c04dGenCond(t *rapid.T, p *c04dProg, fn string) c04dCond {
-	c := c04dCond{Func: fn, Not: rapid.IntRange(0, 9).Draw(t, "not") < 3}
-	nv := rapid.SampledFrom([]int{1, 1, 1, 2, 2, 3, 4, 6}).Draw(t, "nvals")
-	for i := 0; i < nv; i++ {
-		switch fn {
-		case "qname":
-			if rapid.IntRange(0, 5).Draw(t, "geo") == 0 {
-				g := rapid.SampledFrom([][2]string{{"geosite", "cn"}, {"geosite", "CN"}, {"geosite", "google"}, {"geosite", "cn@ads"}, {"ext", "vxsite.dat:tag1"}, {"ext", "vxsite:tag1@ADS"}}).Draw(t, "geosite")
-				c.Vals = append(c.Vals, c04dStyle(t, g[0], g[1]))
-				continue
-			}
-			name := rapid.SampledFrom(p.Names).Draw(t, "qn_name")
-			switch rapid.IntRange(0, 9).Draw(t, "qn_kind") {
-			case 0, 1, 2:
-				c.Vals = append(c.Vals, c04dStyle(t, "full", name))
-			case 3, 4, 5, 6:
-				ls := strings.Split(name, ".")
-				s := strings.Join(ls[rapid.IntRange(0, len(ls)-1).Draw(t, "qn_cut"):], ".")
-				if rapid.IntRange(0, 4).Draw(t, "qn_dot") == 0 {
-					s = "." + s
-				}
-				c.Vals = append(c.Vals, c04dStyle(t, "suffix", s))
-			case 7, 8:
-				i := rapid.IntRange(0, len(name)-1).Draw(t, "qn_i")
-				j := rapid.IntRange(i+1, len(name)).Draw(t, "qn_j")
-				c.Vals = append(c.Vals, c04dStyle(t, "keyword", name[i:j]))
-			default:
-				n := regexp.QuoteMeta(name)
-				c.Vals = append(c.Vals, c04dStyle(t, "regex", rapid.SampledFrom([]string{"^" + n + "$", n + "$", `(^|\.)` + n + "$", `\.net$`, `^[0-9]`, `^(a|b)\.`}).Draw(t, "qn_rx")))
-			}
-		case "qtype":
-			c.Vals = append(c.Vals, c04dStyle(t, "", rapid.SampledFrom([]string{"a", "A", "aaaa", "AAAA", "Aaaa", "cname", "txt", "https", "any", "28", "0x1c", "1", "65", "255", "0"}).Draw(t, "qtype")))
-		case "ip":
-			if rapid.IntRange(0, 5).Draw(t, "geo") == 0 {
-				g := rapid.SampledFrom([][2]string{{"geoip", "private"}, {"geoip", "CN"}, {"ext", "vxip.dat:tag1"}, {"ext", "vxip:TAG1"}}).Draw(t, "geoip")
-				c.Vals = append(c.Vals, c04dStyle(t, g[0], g[1]))
-				continue
-			}
-			c.Vals = append(c.Vals, c04dStyle(t, "", rapid.SampledFrom(p.Prefixes).Draw(t, "ipv")))
-		case "upstream":
-			c.Vals = append(c.Vals, c04dStyle(t, "", rapid.SampledFrom(p.Upstreams).Draw(t, "upv")))
-		}
-	}
-	return c
-}
-
-func c04dGenRules(t *rapid.T, p *c04dProg, funcs []string, outs []string, internal bool) []c04dRule {
-	var rules []c04dRule
-	nr := rapid.IntRange(1, 10).Draw(t, "nrules")
-	for len(rules) < nr {
-		if internal && rapid.IntRange(0, 14).Draw(t, "internal") == 0 {
-			// dae's internal selector rules share the request block; they are not DNS
-			// question rules and must not disturb them.
-			sel := rapid.SampledFrom([]c04dCond{
-				{Func: "sub", Vals: []c04dVal{{Val: "my_sub"}}},
-				{Func: "node", Vals: []c04dVal{{Key: "name_keyword", Val: "hk"}}},
-				{Func: "subnode", Vals: []c04dVal{{Key: "subtag", Val: "my_sub"}, {Key: "name_keyword", Val: "hk"}}},
-			}).Draw(t, "selector")
-			rules = append(rules, c04dRule{Conds: []c04dCond{sel}, Out: rapid.SampledFrom(p.Upstreams).Draw(t, "sel_out")})
-			continue
-		}
-		if rapid.IntRange(0, 9).Draw(t, "run") < 6 {
-			fn := rapid.SampledFrom(funcs).Draw(t, "run_fn")
-			out := rapid.SampledFrom(outs).Draw(t, "run_out")
-			n := rapid.IntRange(2, 5).Draw(t, "run_len")
-			notMode := rapid.IntRange(0, 5).Draw(t, "run_not")
-			for i := 0; i < n; i++ {
-				c := c04dGenCond(t, p, fn)
-				switch {
-				case notMode <= 2:
-					c.Not = false
-				case notMode == 3:
-					c.Not = true
-				default:
-					c.Not = rapid.Bool().Draw(t, "run_noti")
-				}
-				r := c04dRule{Conds: []c04dCond{c}, Out: out, Style: rapid.IntRange(0, 3).Draw(t, "style")}
-				if rapid.IntRange(0, 7).Draw(t, "run_otherout") == 0 {
-					r.Out = rapid.SampledFrom(outs).Draw(t, "run_out2")
-				}
-				if rapid.IntRange(0, 11).Draw(t, "run_second") == 0 {
-					r.Conds = append(r.Conds, c04dGenCond(t, p, rapid.SampledFrom(funcs).Draw(t, "run_fn2")))
-				}
-				rules = append(rules, r)
-			}
-			continue
-		}
-		nc := rapid.SampledFrom([]int{1, 1, 2, 2, 3}).Draw(t, "nconds")
-		r := c04dRule{Out: rapid.SampledFrom(outs).Draw(t, "out"), Style: rapid.IntRange(0, 3).Draw(t, "style")}
-		for i := 0; i < nc; i++ {
-			r.Conds = append(r.Conds, c04dGenCond(t, p, rapid.SampledFrom(funcs).Draw(t, "fn")))
-		}
-		rules = append(rules, r)
-	}
-	if vkKnown("F1") {
-		for i := 1; i < len(rules); i++ {
-			a, b := &rules[i-1], &rules[i]
-			if len(a.Conds) == 1 && len(b.Conds) == 1 && a.Conds[0].Not && b.Conds[0].Not && a.Conds[0].Func == b.Conds[0].Func && a.Out == b.Out {
-				b.Conds[0].Not = false
-				p.ExcludedF1++
-			}
-		}
-	}
-	return rules
-}
-
-func c04dGenProg(t *rapid.T) c04dProg {
-	var p c04dProg
-	nu := rapid.IntRange(1, 3).Draw(t, "nup")
-	for i := 0; i < nu; i++ {
-		p.Upstreams = append(p.Upstreams, fmt.Sprintf("u%d", i))
-	}
-	p.Names = append(p.Names, c04dGenName(t, "name"))
-	for i := 1; i < 5; i++ {
-		switch rapid.IntRange(0, 3).Draw(t, "name_rel") {
-		case 0:
-			p.Names = append(p.Names, rapid.SampledFrom(c04dLabels).Draw(t, "name_extra")+"."+rapid.SampledFrom(p.Names).Draw(t, "name_of"))
-		case 1:
-			ls := strings.Split(rapid.SampledFrom(p.Names).Draw(t, "name_of"), ".")
-			p.Names = append(p.Names, strings.Join(ls[rapid.IntRange(0, len(ls)-1).Draw(t, "name_cut"):], "."))
-		default:
-			p.Names = append(p.Names, c04dGenName(t, "name"))
-		}
-	}
-	for i := 0; i < 5; i++ {
-		p.Prefixes = append(p.Prefixes, c04dGenPrefix(t, &p))
-	}
-	p.Req = c04dGenRules(t, &p, []string{"qname", "qname", "qtype"}, append([]string{"asis", "reject"}, p.Upstreams...), true)
-	p.ReqFallback = rapid.SampledFrom(append([]string{"asis", "asis", "reject"}, p.Upstreams...)).Draw(t, "reqfb")
-	p.Resp = c04dGenRules(t, &p, []string{"qname", "qtype", "ip", "ip", "upstream"}, append([]string{"accept", "reject"}, p.Upstreams...), false)
-	p.RespFallback = rapid.SampledFrom(append([]string{"accept", "accept", "reject"}, p.Upstreams...)).Draw(t, "respfb")
-	return p
-}
-
-// ---- renderer ----
-
-func c04dRenderVal(v c04dVal) string {
-	s := v.Val
-	if v.Quote != 0 {
-		s = string(v.Quote) + s + string(v.Quote)
-	}
-	if v.Key == "" {
-		return s
-	}
-	if v.Tight {
-		return v.Key + ":" + s
-	}
-	return v.Key + ": " + s
-}
-
-func c04dRenderRule(r c04dRule) string {
-	var b strings.Builder
-	sepVal, sepAnd, arrow := ", ", " && ", " -> "
-	switch r.Style {
-	case 1:
-		sepVal, sepAnd, arrow = ",", "&&", "->"
-	case 2:
-		sepVal, sepAnd = ",\n                ", " &&\n            "
-	}
-	for i, c := range r.Conds {
-		if i > 0 {
-			b.WriteString(sepAnd)
-		}
-		if c.Not {
-			b.WriteString("!")
-		}
-		b.WriteString(c.Func + "(")
-		for j, v := range c.Vals {
-			if j > 0 {
-				b.WriteString(sepVal)
-			}
-			b.WriteString(c04dRenderVal(v))
-		}
-		b.WriteString(")")
-	}
-	b.WriteString(arrow + r.Out)
-	if r.Style == 3 {
-		b.WriteString(" # qname(full: x) -> reject")
-	}
-	return b.String()
-}
-
-func c04dRender(p c04dProg) string {
-	var b strings.Builder
-	b.WriteString("global {\n}\nrouting {\n    fallback: direct\n}\ndns {\n    upstream {\n")
-	for i, u := range p.Upstreams {
-		b.WriteString(fmt.Sprintf("        %s: 'udp://192.0.2.%d:53'\n", u, i+1))
-	}
-	b.WriteString("    }\n    routing {\n        request {\n")
-	for _, r := range p.Req {
-		b.WriteString("            " + c04dRenderRule(r) + "\n")
-	}
-	b.WriteString("            fallback: " + p.ReqFallback + "\n        }\n        response {\n")
-	for _, r := range p.Resp {
-		b.WriteString("            " + c04dRenderRule(r) + "\n")
-	}
-	b.WriteString("            fallback: " + p.RespFallback + "\n        }\n    }\n}\n")
-	return b.String()
-}
-
-// ---- interpreter ----
-
-type c04dProbe struct {
-	QName string
-	QType uint16
-	Ips   []netip.Addr
-	From  int // index of the upstream that answered, -1 = asis
-}
-
-var c04dQTypes = map[string]uint16{"a": 1, "ns": 2, "cname": 5, "soa": 6, "ptr": 12, "mx": 15, "txt": 16, "aaaa": 28, "srv": 33, "https": 65, "any": 255}
-
-func c04dQType(s string) uint16 {
-	if v, ok := c04dQTypes[strings.ToLower(s)]; ok {
-		return v
-	}
-	v, err := strconv.ParseUint(s, 0, 16)
-	if err != nil {
-		panic("generator wrote a bad qtype " + s)
-	}
-	return uint16(v)
-}
-
-func c04dDomainAtom(kind, pat, n string) bool {
-	switch kind {
-	case "full":
-		return n == pat
-	case "suffix":
-		if strings.HasPrefix(pat, ".") {
-			return strings.HasSuffix(n, pat)
-		}
-		return n == pat || strings.HasSuffix(n, "."+pat)
-	case "keyword":
-		return strings.Contains(n, pat)
-	case "regex":
-		return regexp.MustCompile(pat).MatchString(n)
-	}
-	panic("bad kind " + kind)
-}
-
-func c04dPrefixContains(s string, a netip.Addr) bool {
-	var base [16]byte
-	bits := 128
-	if strings.Contains(s, "/") {
-		p := netip.MustParsePrefix(s)
-		base, bits = p.Addr().As16(), p.Bits()
-		if p.Addr().Is4() {
-			bits += 96 // IPv4 as IPv4-mapped
-		}
-	} else {
-		base = netip.MustParseAddr(s).As16()
-	}
-	x := a.As16()
-	for i := 0; i < bits; i++ {
-		if (base[i/8]>>(7-uint(i%8)))&1 != (x[i/8]>>(7-uint(i%8)))&1 {
-			return false
-		}
-	}
-	return true
-}
-
-func c04dCondHolds(p c04dProg, c c04dCond, k c04dProbe) bool {
-	any := false
-	switch c.Func {
-	case "qname":
-		n := strings.ToLower(strings.TrimSuffix(k.QName, "."))
-		if k.QName != "" && n != "" {
-			for _, v := range c.Vals {
-				kind, val := v.Key, v.Val
-				if kind == "geosite" || kind == "ext" {
-					file, code := "geosite", val
-					if kind == "ext" {
-						file, code, _ = strings.Cut(val, ":")
-					}
-					if !strings.HasSuffix(file, ".dat") {
-						file += ".dat"
-					}
-					code, attr, _ := strings.Cut(code, "@")
-					for cc, ds := range c04dGeoSites[file] {
-						if !strings.EqualFold(cc, code) {
-							continue
-						}
-						for _, d := range ds {
-							if attr != "" {
-								hit := false
-								for _, a := range d.Attrs {
-									hit = hit || strings.EqualFold(a, attr)
-								}
-								if !hit {
-									continue
-								}
-							}
-							if c04dDomainAtom(d.Kind, d.Val, n) {
-								any = true
-							}
-						}
-					}
-					continue
-				}
-				if c04dDomainAtom(kind, val, n) {
-					any = true
-				}
-			}
-		}
-	case "qtype":
-		for _, v := range c.Vals {
-			if c04dQType(v.Val) == k.QType {
-				any = true
-			}
-		}
-	case "ip":
-		for _, v := range c.Vals {
-			list := []string{v.Val}
-			if v.Key == "geoip" || v.Key == "ext" {
-				file, code := "geoip", v.Val
-				if v.Key == "ext" {
-					file, code, _ = strings.Cut(v.Val, ":")
-				}
-				if !strings.HasSuffix(file, ".dat") {
-					file += ".dat"
-				}
-				list = nil
-				for cc, ps := range c04dGeoIps[file] {
-					if strings.EqualFold(cc, code) {
-						list = ps
-					}
-				}
-			}
-			for _, s := range list {
-				for _, a := range k.Ips {
-					if c04dPrefixContains(s, a) {
-						any = true
-					}
-				}
-			}
-		}
-	case "upstream":
-		for _, v := range c.Vals {
-			for i, u := range p.Upstreams {
-				if u == v.Val && i == k.From {
-					any = true
-				}
-			}
-		}
-	default:
-		panic("unknown function " + c.Func)
-	}
-	return any != c.Not
-}
-
-// c04dInterpret returns (outbound name, deciding rule index or -1).
-func c04dInterpret(p c04dProg, rules []c04dRule, fallback string, k c04dProbe) (string, int) {
-	for i, r := range rules {
-		switch r.Conds[0].Func {
-		case "sub", "node", "subnode":
-			continue // internal selector rules are not DNS question rules
-		}
-		ok := true
-		for _, c := range r.Conds {
-			if !c04dCondHolds(p, c, k) {
-				ok = false
-				break
-			}
-		}
-		if ok {
-			return r.Out, i
-		}
-	}
-	return fallback, -1
-}
-
-func c04dTouched(rules []c04dRule) []map[string]bool {
-	touched := make([]map[string]bool, len(rules))
-	for i := range touched {
-		touched[i] = map[string]bool{}
-	}
-	for i, r := range rules {
-		if i > 0 {
-			a := rules[i-1]
-			if len(a.Conds) == 1 && len(r.Conds) == 1 && a.Conds[0].Func == r.Conds[0].Func && a.Conds[0].Not == r.Conds[0].Not && a.Out == r.Out {
-				touched[i]["merged"] = true
-				touched[i-1]["merged"] = true
-			}
-		}
-		names := []string{}
-		for _, c := range r.Conds {
-			names = append(names, c.Func)
-			seen := map[string]bool{}
-			for j, v := range c.Vals {
-				if v.Key == "geosite" || v.Key == "geoip" || v.Key == "ext" {
-					touched[i]["geodata"] = true
-				}
-				if seen[v.Key+":"+v.Val] {
-					touched[i]["dedup"] = true
-				}
-				seen[v.Key+":"+v.Val] = true
-				if j > 0 && (c.Vals[j-1].Key > v.Key || (c.Vals[j-1].Key == v.Key && c.Vals[j-1].Val > v.Val)) {
-					touched[i]["sorted_values"] = true
-				}
-			}
-		}
-		if !sort.StringsAreSorted(names) {
-			touched[i]["sorted_conditions"] = true
-		}
-	}
-	return touched
-}
-
-// ---- production path ----
-
-func c04dBuild(text string, geoDir string) (d *Dns, err error) {
+// c04dNew = dns.New on an already parsed configuration.
+func c04dNew(conf *config.Config, geoDir string) (d *Dns, err error) {
 	defer func() {
 		if r := recover(); r != nil {
 			err = fmt.Errorf("panic: %v", r)
 		}
 	}()
-	sections, err := config_parser.Parse(text)
-	if err != nil {
-		return nil, fmt.Errorf("config_parser.Parse: %w", err)
-	}
-	conf, err := config.New(sections)
-	if err != nil {
-		return nil, fmt.Errorf("config.New: %w", err)
-	}
-	log := logrus.New()
-	log.SetOutput(io.Discard)
-	log.SetLevel(logrus.ErrorLevel)
-	var dirs []string
-	if geoDir != "" {
-		dirs = []string{geoDir}
-	}
-	reqBefore := routing.DeepCloneRules(conf.Dns.Routing.Request.Rules)
-	respBefore := routing.DeepCloneRules(conf.Dns.Routing.Response.Rules)
-	d, err = New(&conf.Dns, &NewOption{
-		Logger:                log,
-		LocationFinder:        assets.NewLocationFinder(dirs),
+	return New(&conf.Dns, &NewOption{
+		Logger:                c04dLog(),
+		LocationFinder:        c04dFinder(geoDir),
 		UpstreamReadyCallback: func(*Upstream) error { return nil },
 	})
+}
+
+// c04dRouterStyleRequest compiles the request rules the way component/daedns
+// NewWithOption does (router.go:118): same optimiser chain, same builder.
+func c04dRouterStyleRequest(conf *config.Config, p c04dProg, geoDir string) (m *RequestMatcher, err error) {
+	defer func() {
+		if r := recover(); r != nil {
+			err = fmt.Errorf("panic: %v", r)
+		}
+	}()
+	log := c04dLog()
+	program, err := NewNormalizedRequestRoutingProgram(conf.Dns.Routing.Request.Rules, conf.Dns.Routing.Request.Fallback,
+		&routing.DatReaderOptimizer{Logger: log, LocationFinder: c04dFinder(geoDir)},
+		&routing.MergeAndSortRulesOptimizer{},
+		&routing.DeduplicateParamsOptimizer{},
+	)
 	if err != nil {
 		return nil, err
 	}
-	// the optimisers work on clones: the configuration's rule lists are unchanged
-	if !reflect.DeepEqual(reqBefore, conf.Dns.Routing.Request.Rules) || !reflect.DeepEqual(respBefore, conf.Dns.Routing.Response.Rules) {
-		return nil, fmt.Errorf("the optimiser chain mutated the configuration's rule lists")
+	name2id := map[string]uint8{}
+	for i, u := range p.Upstreams {
+		name2id[u] = uint8(i)
 	}
-	return d, nil
+	b, err := NewRequestMatcherBuilderFromProgram(log, program, name2id)
+	if err != nil {
+		return nil, err
+	}
+	return b.Build()
 }
 
-func c04dReqName(p c04dProg, i consts.DnsRequestOutboundIndex) string {
-	switch i {
-	case consts.DnsRequestOutboundIndex_AsIs:
-		return "asis"
-	case consts.DnsRequestOutboundIndex_Reject:
-		return "reject"
-	}
-	if int(i) >= 0 && int(i) < len(p.Upstreams) {
-		return p.Upstreams[i]
-	}
-	return fmt.Sprintf("#%d", i)
+type c04dReqFn struct {
+	What string
+	Fn   func(qname string, qtype uint16) (consts.DnsRequestOutboundIndex, error)
 }
 
-func c04dRespName(p c04dProg, i consts.DnsResponseOutboundIndex) string {
-	switch i {
-	case consts.DnsResponseOutboundIndex_Accept:
-		return "accept"
-	case consts.DnsResponseOutboundIndex_Reject:
-		return "reject"
-	}
-	if int(i) < len(p.Upstreams) {
-		return p.Upstreams[i]
-	}
-	return fmt.Sprintf("#%d", i)
-}
-
-// ---- probes ----
-
-func c04dSeeds(p c04dProg) []string {
-	seeds := append([]string{}, p.Names...)
-	for _, rules := range [][]c04dRule{p.Req, p.Resp} {
-		for _, r := range rules {
-			for _, c := range r.Conds {
-				if c.Func != "qname" {
-					continue
-				}
-				for _, v := range c.Vals {
-					if v.Key == "full" || v.Key == "suffix" || v.Key == "keyword" {
-						if s := strings.TrimPrefix(v.Val, "."); s != "" {
-							seeds = append(seeds, s)
-						}
-					}
-				}
-			}
-		}
-	}
-	return append(seeds, "a.com", "ads.example.com", "example.com", "x-1.net", "ab.x", "co", "b.co", "aa.net")
-}
-
-func c04dGenQName(t *rapid.T, seeds []string, allowEmpty bool) string {
-	k := rapid.IntRange(0, 9).Draw(t, "qn_kind")
-	if k == 0 && allowEmpty {
-		return ""
-	}
-	s := rapid.SampledFrom(seeds).Draw(t, "qn_seed")
-	switch k {
-	case 1:
-		s = c04dGenName(t, "qn_rand")
-	case 2:
-		s = rapid.SampledFrom(c04dLabels).Draw(t, "qn_extra") + "." + s
-	case 3:
-		s = rapid.SampledFrom([]string{"x", "a", "0", "-"}).Draw(t, "qn_glue") + s
-	case 4:
-		if i := strings.IndexByte(s, '.'); i >= 0 {
-			s = s[i+1:]
-		}
-	case 5:
-		s = s + rapid.SampledFrom([]string{"x", "m", ".a"}).Draw(t, "qn_tail")
-	}
-	if s == "" || s == "." {
-		s = "a"
-	}
-	switch rapid.IntRange(0, 2).Draw(t, "qn_case") {
-	case 1:
-		s = strings.ToUpper(s)
-	}
-	if rapid.Bool().Draw(t, "qn_fqdn") {
-		s += "."
-	}
-	return s
-}
-
-func c04dGenAddr(t *rapid.T, prefixes []string) netip.Addr {
-	var a [16]byte
-	if rapid.IntRange(0, 9).Draw(t, "ip_aim") < 8 {
-		s := rapid.SampledFrom(prefixes).Draw(t, "ip_pfx")
-		bits := 128
-		var base [16]byte
-		if strings.Contains(s, "/") {
-			p := netip.MustParsePrefix(s)
-			base, bits = p.Addr().As16(), p.Bits()
-			if p.Addr().Is4() {
-				bits += 96
-			}
-		} else {
-			base = netip.MustParseAddr(s).As16()
-		}
-		first, last := base, base
-		for i := bits; i < 128; i++ {
-			first[i/8] &^= 1 << (7 - uint(i%8))
-			last[i/8] |= 1 << (7 - uint(i%8))
-		}
-		add := func(x [16]byte, d int) [16]byte {
-			for i := 15; i >= 0 && d != 0; i-- {
-				v := int(x[i]) + d
-				x[i] = byte(v & 0xff)
-				d = v >> 8
-			}
-			return x
-		}
-		switch rapid.IntRange(0, 4).Draw(t, "ip_edge") {
-		case 0:
-			a = first
-		case 1:
-			a = last
-		case 2:
-			a = add(first, -1)
-		case 3:
-			a = add(last, 1)
-		default:
-			a = base
-		}
-	} else {
-		for i := range a {
-			a[i] = byte(rapid.IntRange(0, 255).Draw(t, "ip_rb"))
-		}
-	}
-	addr := netip.AddrFrom16(a)
-	if addr.Is4In6() && rapid.Bool().Draw(t, "ip_unmap") {
-		return addr.Unmap()
-	}
-	return addr
-}
-
-func c04dAllPrefixes(p c04dProg) []string {
-	pf := append([]string{}, p.Prefixes...)
-	for _, f := range c04dKeys(c04dGeoIps) {
-		for _, c := range c04dKeys(c04dGeoIps[f]) {
-			pf = append(pf, c04dGeoIps[f][c]...)
-		}
-	}
-	return pf
+type c04dRespFn struct {
+	What string
+	Fn   func(qname string, qtype uint16, ips []netip.Addr, from consts.DnsRequestOutboundIndex) (consts.DnsResponseOutboundIndex, error)
 }
 
 func TestC04_Dns(t *testing.T) {
@@ -832,10 +113,47 @@ func TestC04_Dns(t *testing.T) {
 		}
 		p := c04dGenProg(t)
 		text := c04dRender(p)
-		d, err := c04dBuild(text, geoDir)
+		conf, err := c04dParse(text)
 		if err != nil {
 			t.Fatalf("well-formed dns section rejected: %v\n%s", err, text)
 		}
+		parsed := c04dSnapshotDns(conf)
+		unchanged := func(stage string) {
+			if now := c04dSnapshotDns(conf); now != parsed && os.Getenv("VERIF_C04_DECISIONS_ONLY") == "" { // knob for sensitivity runs only
+				t.Fatalf("%s changed the parsed configuration object (the optimiser chain must work on its own copy)\n--- config ---\n%s--- as parsed ---\n%s--- now ---\n%s", stage, text, parsed, now)
+			}
+		}
+		var reqs []c04dReqFn
+		var resps []c04dRespFn
+		// the order of the first two stages is drawn: router-style compile first (as
+		// control_plane.go does) or dns.New first
+		routerFirst := rapid.Bool().Draw(t, "router_first")
+		stageRouter := func() {
+			rm, err := c04dRouterStyleRequest(conf, p, geoDir)
+			if err != nil {
+				t.Fatalf("router-style request compile of the parsed configuration failed: %v\n%s", err, text)
+			}
+			unchanged("the router-style request compile")
+			reqs = append(reqs, c04dReqFn{"router-style request compile", rm.Match})
+		}
+		stageNew := func(what string) {
+			d, err := c04dNew(conf, geoDir)
+			if err != nil {
+				t.Fatalf("%s of the parsed configuration failed: %v\n%s", what, err, text)
+			}
+			unchanged(what)
+			reqs = append(reqs, c04dReqFn{what, d.reqMatcher.Match})
+			resps = append(resps, c04dRespFn{what, d.respMatcher.Match})
+		}
+		if routerFirst {
+			stageRouter()
+			stageNew("dns.New #1 (after the router-style compile)")
+		} else {
+			stageNew("dns.New #1")
+			stageRouter()
+		}
+		stageNew("dns.New #2 (same parsed configuration)")
+
 		for i := 0; i < p.ExcludedF1; i++ {
 			vkExcluded("C04.dns", "F1")
 		}
@@ -850,9 +168,11 @@ func TestC04_Dns(t *testing.T) {
 			// request
 			k := c04dProbe{QName: c04dGenQName(t, seeds, true), QType: uint16(rapid.SampledFrom(qtypes).Draw(t, "qtype")), From: -1}
 			want, by := c04dInterpret(p, p.Req, p.ReqFallback, k)
-			gotIdx, err := d.reqMatcher.Match(k.QName, k.QType)
-			if got := c04dReqName(p, gotIdx); err != nil || got != want {
-				t.Fatalf("DNS request routing: compiled program answers %q (err=%v), the written rule list says %q (rule %d)\nquestion %+v\n%s", got, err, want, by, k, text)
+			for _, f := range reqs {
+				gotIdx, err := f.Fn(k.QName, k.QType)
+				if got := c04dReqName(p, gotIdx); err != nil || got != want {
+					t.Fatalf("DNS request routing, %s: compiled program answers %q (err=%v), the written rule list says %q (rule %d)\nquestion %+v\n%s", f.What, got, err, want, by, k, text)
+				}
 			}
 			nt, cls := "", []string{"req"}
 			if by >= 0 && len(reqTouched[by]) > 0 {
@@ -878,9 +198,11 @@ func TestC04_Dns(t *testing.T) {
 			if k.From >= 0 {
 				from = consts.DnsRequestOutboundIndex(k.From)
 			}
-			gotR, err := d.respMatcher.Match(k.QName, k.QType, k.Ips, from)
-			if got := c04dRespName(p, gotR); err != nil || got != want {
-				t.Fatalf("DNS response routing: compiled program answers %q (err=%v), the written rule list says %q (rule %d)\nanswer %+v\n%s", got, err, want, by, k, text)
+			for _, f := range resps {
+				gotR, err := f.Fn(k.QName, k.QType, k.Ips, from)
+				if got := c04dRespName(p, gotR); err != nil || got != want {
+					t.Fatalf("DNS response routing, %s: compiled program answers %q (err=%v), the written rule list says %q (rule %d)\nanswer %+v\n%s", f.What, got, err, want, by, k, text)
+				}
 			}
 			nt, cls = "", []string{"resp"}
 			if by >= 0 && len(respTouched[by]) > 0 {
@@ -891,12 +213,13 @@ func TestC04_Dns(t *testing.T) {
 			}
 			sort.Strings(cls)
 			kk2 := k
-			vkCase("C04.dns", nt, func() any { return map[string]any{"config": text, "answer": fmt.Sprintf("%+v", kk2), "decision": want} }, cls...)
+			vkCase("C04.dns", nt, func() any {
+				return map[string]any{"config": text, "answer": fmt.Sprintf("%+v", kk2), "decision": want}
+			}, cls...)
 		}
 	})
 }
 
-// Finding F1 through the DNS pipelines (same optimiser).
 func TestC04_Finding_F1_Dns(t *testing.T) {
 	p := c04dProg{
 		Upstreams: []string{"u0"},
@@ -911,7 +234,11 @@ func TestC04_Finding_F1_Dns(t *testing.T) {
 		},
 		RespFallback: "accept",
 	}
-	d, err := c04dBuild(c04dRender(p), "")
+	conf, err := c04dParse(c04dRender(p))
+	if err != nil {
+		t.Fatalf("parse: %v", err)
+	}
+	d, err := c04dNew(conf, "")
 	if err != nil {
 		t.Fatalf("build: %v", err)
 	}
